@@ -26,7 +26,7 @@ TECHNIQUE = "static analysis: value graphs of closures captured by abstract inte
 
 ACT = [sp.Function("Act1", positive=True), sp.Function("Act2", positive=True)]
 _P = lambda n: sp.Symbol(n, positive=True)
-THALF = [_P("Th1"), _P("Th1") + _P("dTh")]      # two products, the second longer lived
+THALF = [sp.Rational(21, 2), sp.Rational(61, 2)]      # two products (hours), the second longer lived
 
 
 WEIGHTS = []       # one opaque positive weight per call of the activity oracle since the list was last cleared
@@ -50,13 +50,12 @@ def setup(ctx, rest_times, facts, activate=True, TH=None, entries=1):
         return {r: [g * A(sp.sympify(T)) for T in times] for r, A in zip(recs, ACT)} if activate else {}
     w = world(ctx, stubs={"activation.activity": oracle})
     I = w.I
+    I.havoc_loops = True          # an iteration to convergence inside decay_time is not followed: its results are unknowns
     I.positive = list(facts)
-    for k in (1, 2):
-        # two table rows that produce the same daughter from different parents, with their own tabulated half-lives (as
-        # Co-60m from Co-59 and from Ni-60 in the real table); the descriptive fields are there for code that reads them
-        recs.append(I.new_obj(f"rec{k}", None, {"Thalf_hrs": (TH or THALF)[k - 1], "daughter": "X-60m", "isotope": f"P-{58 + k}", "reaction": "act",
-                                                "Thalf_str": f"{k} h", "isomer": "m", "comments": "", "fast": False, "symbol": "P", "A": sp.Integer(58 + k),
-                                                "Z": sp.Integer(27)}, open_attrs=set()))
+    # two table rows that produce the same daughter with their own tabulated half-lives (as Sm-151 or Tm-171 in the real
+    # table).  The records are made by the package's own loader from a two-row table, so that anything the loader keeps
+    # beside the records (per-nuclide tables ...) is consistent with them.
+    recs.extend(_records_from_loader(ctx, w, TH or THALF))
     S = I.get_class("activation.Sample")
     atoms_ = {w.atoms["isotope"]: sp.Integer(1)}
     if entries == 2:       # two formula entries (two isotopes) feeding the same products
@@ -80,6 +79,44 @@ def setup(ctx, rest_times, facts, activate=True, TH=None, entries=1):
         return (tr, ftr)
     I.stubs["activation.find_root"] = fake_root
     return w, smp, captured, tr, ftr
+
+
+def _records_from_loader(ctx, w, TH):
+    from .common import folder
+    from .C14 import PROBE
+    from ptstat.symval import TextFile
+    I = w.I
+    names = folder(ctx).const("activation", "COLUMN_NAMES")
+    col = {nm: i for i, nm in enumerate(names)}
+    rows = []
+    for k, th in enumerate(TH, 1):
+        cells = [PROBE.get(i, f"c{i}") for i in range(len(names))]
+        cells[0] = '"Fe"'
+        cells[col["Z"]] = "26"
+        cells[col["symbol"]] = '"Fe"'
+        cells[col["A"]] = "56"
+        cells[col["isotope"]] = '"Fe-56"'
+        cells[col["daughter"]] = '"X-60m"'
+        cells[col["reaction"]] = '"act"'
+        cells[col["fast"]] = "n"
+        cells[col["Thalf_hrs"]] = str(sp.nsimplify(th).evalf(12)) if not sp.sympify(th).free_symbols else None
+        if cells[col["Thalf_hrs"]] is None:
+            raise AnalysisError("half-lives of the probe rows must be numbers")
+        cells[-1] = '"note"\n'
+        rows.append("\t".join(cells))
+    iso = w.atoms["isotope"]
+    I.builtins["open"] = Builtin("open", lambda *a, **k: TextFile(["\t\t\n"] + rows, "activation.dat"))
+    I.stubs["core.get_data_path"] = lambda I_, a, k: "/data"
+    try:
+        I.call(I.global_name("activation", "init"), [w.table], {})
+    except SymRaise as exc:
+        raise AnalysisError(f"activation.init on a two-row table raises {exc}")
+    got = I.heap[iso.id].get("neutron_activation")
+    if not isinstance(got, list) or len(got) != len(TH):
+        raise AnalysisError(f"activation.init attached {got!r} to Fe[56] for a table of {len(TH)} rows")
+    for r_, th in zip(got, TH):
+        I.heap[r_.id]["Thalf_hrs"] = sp.nsimplify(th)        # (the exact rational rather than the parsed decimal)
+    return got
 
 
 def _exps(e):
